@@ -451,7 +451,7 @@ for conc, exp in (([10 ** 20 + 1, 10 ** 20], [-1, 1]), ([Fraction(10, 63), Fract
     dct = rsys.rates(dict(zip("AB", conc)))
     for key, a_, e_ in zip("AB", arr, exp):
         for label, v in (("dCdt_list", a_), ("rates", dct[key])):
-            if v != e_ or isinstance(v, float): bad.append("%%s with exact inputs %%s: d[%%s]/dt = %%r, exact value %%r" %% (label, conc, key, v, e_))
+            if v != e_ or isinstance(v, float): bad.append("%s with exact inputs %s: d[%s]/dt = %r, exact value %r" % (label, conc, key, v, e_))
 for b in bad: print("MISMATCH", b)
 sys.exit(1 if bad else 0)
 '''
